@@ -2,6 +2,7 @@ SPECIFICATION Spec
 CONSTANTS
   Size = 2
   MaxMsgs = 3
+  RejectEmpty = TRUE
   ClosePipe = TRUE
 INVARIANTS InvOkMeansStored InvCommittedSize InvMalformedFails InvMalformedStoresNothing
 PROPERTY Terminates
